@@ -17,6 +17,7 @@ import Golib.Layout.Agree
 import Golib.Layout.Reencode
 import Golib.Layout.ValueInst
 import Golib.Layout.Prefix
+import Golib.Layout.History
 import Golib.Packs.Profile
 import Golib.Packs.Container
 import Golib.Packs.Tree
@@ -93,6 +94,38 @@ theorem pack_prefix_fails (w r : L) (h : agrees w r = true) (hn : r.tailFree = t
     (E : Env) (pfx : String) (x : Rec) (hwf : w.WF valueRT E pfx x) (q s : Bytes) (hs : s ≠ [])
     (hq : q ++ s = w.write E pfx x) : r.read pfx E q = none :=
   encoding_prefix_fails valueRT w r h hn E pfx x hwf q s hs hq
+
+/-! ### re-use: one object receiving several packs, one stream carrying several packs -/
+
+/-- frame condition: a path the reader did not assign keeps the object's old content -/
+theorem reuse_frame (y : Rec) (o : Out) (p : String) (h : p ∉ keys o) : store y o p = y p :=
+  store_frame y o p h
+
+/-- decoding into a USED object: every carried path takes the new pack's value, every other path keeps
+    what the object held before (readers that assign; readers that `Put` into a table they find merge
+    rows — see Golib/Layout/History.lean) -/
+theorem decode_into_used (w r : L) (h : agrees w r = true)
+    (E : Env) (pfx : String) (x y : Rec) (rest : Bytes) (hwf : w.WF valueRT E pfx x)
+    (hn : (keys (w.expect E pfx x)).Nodup) :
+    ∃ o E', r.read pfx E (w.write E pfx x ++ rest) = some (o, E', rest) ∧
+      (∀ k v, (k, v) ∈ w.expect E pfx x → store y o k = v) ∧
+      (∀ p, p ∉ keys (w.expect E pfx x) → store y o p = y p) :=
+  Layout.decode_into_used valueRT w r h E pfx x y rest hwf hn
+
+/-- a history of packs written one after the other into one stream is read back one after the other:
+    in order, each with exactly its carried fields, nothing shared, whatever follows the stream -/
+theorem history_roundtrip (w r : L) (h : agrees w r = true) (E : Env) (pfx : String)
+    (xs : List Rec) (rest : Bytes) (hwf : ∀ x ∈ xs, w.WF valueRT E pfx x) :
+    readAll r E pfx xs.length (writeAll w E pfx xs ++ rest) = some (xs.map (w.expect E pfx), rest) :=
+  Layout.history_roundtrip valueRT w r h E pfx xs rest hwf
+
+/-- the object that received a whole history: a path no pack carried holds the initial content … -/
+theorem history_frame (y : Rec) (os : List Out) (p : String) (h : ∀ o ∈ os, p ∉ keys o) :
+    received y os p = y p := Layout.history_frame y os p h
+
+/-- … and a path carried by the last pack holds the last pack's value, whatever came before -/
+theorem history_last (y : Rec) (os : List Out) (o : Out) (hn : (keys o).Nodup) (k : String) (v : Val)
+    (h : (k, v) ∈ o) : received y (os ++ [o]) k = v := Layout.history_last y os o hn k v h
 
 /-- **type-tagged round trip** (`ToPack (ToBytesPack p)`): the tag written selects, in the factory, the
     reader of the same type; the decoded pack has that type code and the carried fields -/
@@ -235,6 +268,8 @@ example : agrees demoW2 demoR2 = true := by decide
 example : demoW2.write env0 "" demoX2 = [0, 2, 255, 255, 0, 1, 9, 1, 1, 255, 255, 255, 249, 1, 3, 200] := by decide +kernel
 example : (demoR2.read "" env0 (demoW2.write env0 "" demoX2 ++ [5])).map (fun (o, _, r) => (o.length, r))
     = some (7, [5]) := by decide +kernel
+
+example : (keys (demoL.expect env0 "" demoX)).Nodup := by decide +kernel
 
 example : (⟨300, 1, 7, 0, 99⟩ : Hdr).WF := by decide
 example : encHeader ⟨0, 1, 0, 0, 2⟩ = [0, 0, 0, 0, 1, 0, 0, 0, 0, 0, 0, 0, 2] := by decide
